@@ -29,7 +29,8 @@ LEAN = {"module": "Pygom.Props.C06",
         "required": ["Pygom.C06.broadcast_spec", "Pygom.C06.broadcast_accepts_iff", "Pygom.C06.solution_selection",
                      "Pygom.C06.theta_bound_by_name", "Pygom.C06.cost_is_loss", "Pygom.C06.square_cost_zero_at_truth",
                      "Pygom.C06.unrollState_target", "Pygom.C06.unrollState_other", "Pygom.C06.earlier_outputs_unaffected",
-                     "Pygom.C06.atStored_reproduces", "Pygom.C06.output_depends_on_held_values_only"]}
+                     "Pygom.C06.atStored_reproduces", "Pygom.C06.output_depends_on_held_values_only",
+                     "Pygom.C06.replicate_observations_same_prediction"]}
 BUDGET = {"quick": {"cases": 1000, "broadcast": 50, "per_batch": 40, "history": 704},
           "thorough": {"cases": 32000, "broadcast": 600, "per_batch": 60, "history": 7040}}
 RULE = ("random bounded models (gen_model, autonomous, 2-4 states, 1-4 parameters, short horizons) and catalogue models "
@@ -60,7 +61,8 @@ RULE = ("random bounded models (gen_model, autonomous, 2-4 states, 1-4 parameter
         "is non-trivial when at least two calls were judged against the reference for the values the object currently holds.")
 ASSUMPTIONS = ["an IntegrationError raised by an evaluation is not judged when scipy's own lsoda (scipy.integrate.ode on the oracle's right-hand "
                "side, no pygom) fails on the same instance (observed: derivative exactly zero at x0, far negative t0, increments that are not "
-               "representable): tagged unjudged:scipy-lsoda-refuses-this-instance",
+               "representable): tagged unjudged:scipy-lsoda-refuses-this-instance; on grids far from the origin a wrong cost is reported only "
+               "after scipy's own lsoda has been seen to be within 1e-8 (1+|ref|) of the reference on the instance",
                "observation grids the unchanged pygom / scipy refuse with an error are outside the property's domain and only tagged: a first "
                "observation at t0 and times one ulp apart (zero / sub-resolution step: lsoda 'illegal input'), a one-point grid with several "
                "observed states, replicate times when the constructor's trial integrate2 restarts a dopri5 integrator on the zero-length step or "
@@ -132,6 +134,31 @@ def _custom_setup(r, kind, want_order):
     return {"model": {"src": "random", "spec": spec, "meta": {"kinds": meta["kinds"]}}, "states": states, "params": params, "theta_true": theta,
             "theta_eval": [round(v * r.uniform(0.8, 1.25), 4) for v in theta], "x0": x0, "x0_eval": [round(v * r.uniform(0.85, 1.2), 4) for v in x0],
             "t0": 0.0, "times": times, "grid": grid, "obs": obs}
+
+
+def scipy_lsoda_off(rhs, theta, x0, t0, times, ref_tr):
+    """is scipy's own lsoda (scipy.integrate.ode, pygom's tolerances 1e-10, the oracle's right-hand side, no pygom) off the DOP853
+    reference by more than 1e-8 (1 + |ref|) on this instance, or does it refuse?  Asked only when a wrong cost is about to be
+    reported: far from the time origin scipy's integrators now and then are silently wrong on one particular step (see C02)."""
+    import warnings
+    import scipy.integrate as si
+    th = [float(v) for v in theta]
+    try:
+        with warnings.catch_warnings():
+            warnings.simplefilter("ignore")
+            r = si.ode(lambda t, x: rhs(t, x, th)).set_integrator("lsoda", nsteps=10000, atol=1e-10, rtol=1e-10)
+            r.set_initial_value(np.array(x0, float), float(t0))
+            rows = []
+            for t in times:
+                if float(t) != r.t:
+                    r.integrate(float(t))
+                    if not r.successful():
+                        return True
+                rows.append(np.array(r.y, float))
+        a = np.array(rows)
+        return bool(not np.all(np.isfinite(a)) or np.max(np.abs(a - ref_tr) / (1.0 + np.abs(ref_tr))) > 1e-8)
+    except Exception:
+        return True
 
 
 def scipy_lsoda_refuses(rhs, theta, x0, t0, times):
@@ -496,6 +523,10 @@ def run_loss(case):
             if np.isfinite(got):
                 margins.append(abs(float(got) - ref) / tol)
             if not np.isfinite(got) or abs(float(got) - ref) > tol:
+                th_x = [(th_, x_) for th_, x_, tr_ in ((th_true, s["x0"], tr_true), (th_eval, s["x0"], tr_eval), (th_eval, x0_iv, tr_iv)) if tr_ is ref_tr]
+                if th_x and gv in ("far", "far-repeated") and scipy_lsoda_off(rhs, th_x[0][0], th_x[0][1], s["t0"], s["times"], ref_tr):
+                    tags.append("unjudged:scipy-lsoda-inaccurate-on-this-instance")
+                    return True
                 viol.append({"what": "%s of %sLoss is not the %s loss of the reference trajectory" % (what, cls, cls), "signature": sg(site),
                              "detail": "got %r expected %r (tolerance %g) obs=%s states=%s target_param=%s" % (float(got), ref, tol, obs, states, tp)})
                 return False
